@@ -20,3 +20,6 @@ rm -f go.mod.new
 cmp -s "$REPO/go.sum" go.sum 2>/dev/null || cat "$REPO/go.sum" > go.sum
 OUT=${VERIF_BIN:-../bin/cctpmc}
 go build -tags verif ${VERIF_BUILD_FLAGS:-} -o "$OUT" . || exit 2
+if [ "${VERIF_RACE:-0}" = "1" ]; then
+  go build -race -tags verif ${VERIF_BUILD_FLAGS:-} -o "$(dirname "$OUT")/cctpmc-race" . || exit 2
+fi
